@@ -20,6 +20,7 @@ import (
 	"runtime"
 	"strings"
 	"sync"
+	"sync/atomic"
 	"time"
 
 	"github.com/mmcloughlin/addchain"
@@ -28,10 +29,18 @@ import (
 	"verif/harness/lib"
 )
 
-const (
-	delta   = 30 * time.Millisecond // deliberate observation delay (hold-out, saturation, stuck)
-	patient = 30 * time.Second      // upper bound for event-based waits; only reached when something is broken
-)
+const delta = 30 * time.Millisecond // deliberate observation delay (hold-out, saturation, stuck)
+
+// patient is the upper bound for event-based waits; it is only reached when the implementation
+// is broken (deadlock), so after a few expiries the remaining runs give up quickly.
+var expiries int32
+
+func patient() time.Duration {
+	if atomic.LoadInt32(&expiries) >= 3 {
+		return time.Second
+	}
+	return 30 * time.Second
+}
 
 var target = big.NewInt(1000000007)
 
@@ -203,7 +212,11 @@ func (r *recorder) wait(pred func() bool, timeout time.Duration) bool {
 		case <-r.notify:
 		case <-time.After(2 * time.Millisecond):
 		case <-deadline.C:
-			return r.check(pred)
+			if r.check(pred) {
+				return true
+			}
+			atomic.AddInt32(&expiries, 1)
+			return false
 		}
 	}
 }
@@ -300,7 +313,8 @@ func scenario(k, limit int, strategy string) (o obs) {
 				pan = v
 			}
 		}()
-		res = p.Execute(n, ias)
+		out := p.Execute(n, ias)
+		res = append([]exec.Result{}, out...) // what the slice holds at the moment of return
 		rec.add("r")
 	}()
 	waitFinished := func(d time.Duration) bool {
@@ -308,6 +322,9 @@ func scenario(k, limit int, strategy string) (o obs) {
 		case <-finished:
 			return true
 		case <-time.After(d):
+			if d > time.Second/2 {
+				atomic.AddInt32(&expiries, 1)
+			}
 			return false
 		}
 	}
@@ -323,7 +340,7 @@ func scenario(k, limit int, strategy string) (o obs) {
 
 	switch {
 	case limit < 0:
-		if !waitFinished(patient) {
+		if !waitFinished(2 * time.Second) {
 			o.problem = "noreturn"
 		}
 	case name == "stuck":
@@ -334,12 +351,12 @@ func scenario(k, limit int, strategy string) (o obs) {
 			return o // the blocked goroutine is abandoned
 		}
 		openAll()
-		if !waitFinished(patient) {
+		if !waitFinished(patient()) {
 			o.problem = "noreturn"
 		}
 	case name == "free":
 		openAll()
-		if !waitFinished(patient) {
+		if !waitFinished(patient()) {
 			o.problem = "noreturn"
 		}
 	default:
@@ -347,7 +364,7 @@ func scenario(k, limit int, strategy string) (o obs) {
 		if limit < m {
 			m = limit
 		}
-		if !rec.wait(func() bool { return rec.nstart >= m }, patient) {
+		if !rec.wait(func() bool { return rec.nstart >= m }, patient()) {
 			o.problem = "nosat"
 		}
 		if name == "saturate" {
@@ -364,13 +381,13 @@ func scenario(k, limit int, strategy string) (o obs) {
 			}
 			open(j)
 			if name != "holdout" && rec.check(func() bool { return rec.started[j] }) {
-				if !rec.wait(func() bool { return rec.done[j] }, patient) {
+				if !rec.wait(func() bool { return rec.done[j] }, patient()) {
 					o.problem = "nodone"
 				}
 			}
 		}
 		openAll()
-		if !waitFinished(patient) {
+		if !waitFinished(patient()) {
 			o.problem = "noreturn"
 		}
 	}
